@@ -206,10 +206,15 @@ static void do_step(Run &R, int w, int salt) {
         }
         case W_NEEDED: {
             if (R.desc <= 0) return;
-            int Rl[2] = {salt % n, -1}, X[1] = {-1};
+            // every other step names the fragment to rebuild in the exclude list as well (as the repository's own test does)
+            int Rl[2] = {salt % n, -1}, X[3] = {-1, -1, -1};
+            if (salt & 1) { X[0] = Rl[0]; if (ref::tolerance(g) >= 2 && (salt & 2)) X[1] = (Rl[0] + 1) % n; }
             std::vector<int> N(n + 1, -1);
             rc = liberasurecode_fragments_needed(R.desc, Rl, X, N.data()); what = "fragments_needed"; ok = rc == 0;
-            if (rc < 0 && g_injected == inj0 && R.real) r.fail("fragments_needed failed without an injected fault");
+            // (lists that overlap are outside what the planner promises to answer - flat XOR counts entries, not distinct
+            // indexes: such a query may fail on its own, which is one more naturally failing call for this check)
+            if (rc < 0 && g_injected == inj0 && R.real && X[0] < 0) r.fail("fragments_needed failed without an injected fault");
+            if (rc < 0 && g_injected == inj0 && X[0] >= 0) ok = true;
             break;
         }
         }
